@@ -95,10 +95,13 @@ def expected_eltwise_scaling(spec):
         s1, s2, so = float(s1), float(s2), float(so)
         if sub == "MUL":
             refs = set()
+            flushed = []
             for prod in (s1 * s2 / so, float(np.float32(np.float32(np.float32(s1) * np.float32(s2)) / np.float32(so)))):
                 m, e = R.quantize_multiplier(prod)
                 refs.add(Fraction(m) * Fraction(2) ** (e - 31))
-            return {"ofm_values": refs}
+                if m == 0 and prod > 0:
+                    flushed.append(Fraction(prod))  # below 2^-32 the reference flushes to zero; the hardware range reaches further down: the 2^-31 bound applies instead
+            return {"ofm_values": refs, "ofm_within_bound_of": flushed}
         bits = opgen.DT[ifm.dtype][0]
         L = 20 if bits == 8 else 15
         if s1 == s2:
@@ -235,7 +238,8 @@ def compare_op(spec, blk, F, acc):
                 if "opa" in es and ((F.opa_scale, F.opa_shift) != es["opa"] or F.opb_scale != es["opb"]):
                     diffs.append(("opa/opb_scale", (es["opa"], es["opb"]), ((F.opa_scale, F.opa_shift), F.opb_scale)))
             elif "ofm_values" in es:
-                if got_ofm not in es["ofm_values"]:
+                near = any(abs(got_ofm - real) / real <= Fraction(1, 1 << 31) for real in es.get("ofm_within_bound_of", []))
+                if got_ofm not in es["ofm_values"] and not near:
                     diffs.append(("ofm_scale", [float(x) for x in es["ofm_values"]], float(got_ofm)))
             elif es.get("equal_scales"):
                 pass  # simplified/advanced choice depends on the quantised value: checked at value level by C09
